@@ -61,6 +61,9 @@ def base_md(backend: str) -> List[Dict[str, Any]]:
                     "return_type_element": t + "*"})
     # a method-style plug-in (like the built-in getAttributeFloat): `x.fv_attr(k)` is rewritten by NAME into injected C++ in
     # which obj_j stands for the object the method is called on - every call site keeps its own object
+    # an enum in a namespace: FvNS.Kind.Color.Red in a query is resolved as a C++ namespace path - unless a lambda parameter
+    # of that name is in scope
+    out.append({"metadata_type": "define_enum", "namespace": "FvNS.Kind", "name": "Color", "values": ["Red", "Blue", "Green"]})
     acc = "->" if backend == "atlas" else "."
     out.append({"metadata_type": "add_cpp_function", "name": "fv_attr", "include_files": [], "arguments": ["scale"],
                 "code": [f"auto result = obj_j{acc}pt() * scale;"], "return_type": "double", "method_object": "obj_j",
@@ -168,6 +171,7 @@ POOL_COLL = ["Jets", "Muons", "Electrons", "Tracks", "EventInfo", "EventDataset"
 POOL_FUNC = ["sin", "cos", "abs", "sqrt", "max", "min", "len", "sum"]
 POOL_CPP = ["auto", "result", "this", "i_obj1", "jets1", "double", "std", "tree", "collection_name", "node", "self", "ast"]
 POOL_ARG = ["arg_0", "arg_1", "arg_2", "arg_3", "arg_7", "arg_12"]
+POOL_NS = ["FvNS", "Kind", "Color", "xAOD", "FvNS"]   # names of declared C++ namespaces / enums
 
 
 def alpha_variant(tree: ast.AST, strategy: str, rng: random.Random) -> ast.AST:
@@ -204,8 +208,10 @@ def alpha_variant(tree: ast.AST, strategy: str, rng: random.Random) -> ast.AST:
                     cands = rng.sample(POOL_CPP, len(POOL_CPP))
                 elif strategy == "arg":
                     cands = rng.sample(POOL_ARG, len(POOL_ARG))
+                elif strategy == "ns":
+                    cands = rng.sample(POOL_NS, len(POOL_NS))
                 elif strategy == "mixed":
-                    pool = POOL_COLL + POOL_FUNC + POOL_CPP + POOL_ARG + list(outer_new) + ["x", "e", "event", "j"]
+                    pool = POOL_COLL + POOL_FUNC + POOL_CPP + POOL_ARG + POOL_NS + list(outer_new) + ["x", "e", "event", "j"]
                     cands = rng.sample(pool, len(pool))
                 new = next((c for c in cands if c not in avoid and c not in chosen and c not in PY_KW), None)
                 if new is None:
@@ -363,6 +369,9 @@ class QGen:
 
     def boolean(self, x: str, objs: List[str], nums: List[str], d: int) -> str:
         r = self.rng.random()
+        if r < 0.08:
+            self.op("enum")
+            return f"{self.num(x, objs, nums, 0)} {self.rng.choice(['>', '=='])} FvNS.Kind.Color.{self.rng.choice(['Red', 'Blue'])}"
         if d <= 0 or r < 0.55:
             return f"{self.num(x, objs, nums, d - 1)} {self.rng.choice(['>', '<', '>='])} {self.rng.choice(['1.5', '30.0', '0'])}"
         if r < 0.7:
@@ -927,7 +936,7 @@ def check(tier: str, seed: int, t0: float, build: core.BuildStatus) -> int:
 
     # ---- differential variants on generated queries ---------------------------------------------
     t_gen = time.time()
-    STRATS = ["fresh", "same", "shadow", "coll", "func", "cpp", "arg", "mixed"]
+    STRATS = ["fresh", "same", "shadow", "coll", "func", "cpp", "arg", "ns", "mixed"]
     for i in range(n_base):
         for backend in BACKENDS:
             if time.time() - t_gen > budget * 0.65:
